@@ -360,7 +360,9 @@ def run(ctx):
     if ctx.quick:
         cap = 3000
         for name in ALL_CONFIGS:
-            if name == "queue":
+            if name == "wide":
+                replay_config(ctx, rp, name, constants={"Plan": '"wideq"'}, max_programs=cap)
+            elif name == "queue":
                 # quick: queue<void> push/pop without pause() steps (a quarter of the graph; the full one is in thorough)
                 replay_config(ctx, rp, name, constants={"Kinds": '{"qo", "qd", "qa"}'}, max_programs=cap, must_skip=("Pause",))
             else:
@@ -398,7 +400,8 @@ def run(ctx):
             N=5, MaxSteps=5, K=2, Roots=3, NatSteps=5,
             Kinds='{"pa", "rd", "ra", "aw", "sd", "sa", "sc", "st", "bd", "ba", "pk", "up"}',
             NatKinds='{"sd", "rd", "up"}'), num=2000)
-    nested_strict_probe(ctx)
+    if not ctx.quick:
+        nested_strict_probe(ctx)
     sh = ctx.extra.get("program_shapes", {})
     for k in ("with_discarded_readying", "pause_with_others_queued", "deque_len_ge2_seen", "resolve_releasing_ge2",
               "spawn_inside_coroutine"):
